@@ -124,7 +124,12 @@ def _run_position(cfg, max_steps, errors, log):
             kind = cfg["kind"]
             sub = mao.ActiveObject(name="A")
             ref = mao.ActiveObject(name="B")      # reference: the same pending events, then a direct post_lifo / post_fifo
-            actions = {"DO_SUB": lambda chart: chart.subscribe(Event(signal="PING"), queue_type=kind)}
+            kinds = ("fifo", "lifo") if kind == "both" else (kind,)
+
+            def do_sub(chart):
+                for kd in kinds:
+                    chart.subscribe(Event(signal="PING"), queue_type=kd)
+            actions = {"DO_SUB": do_sub}
             chart = make_chart(log, "A", cfg["sub_spied"], actions)
             res = {}
 
@@ -134,12 +139,12 @@ def _run_position(cfg, max_steps, errors, log):
 
             def driver():
                 if cfg["sub_when"] == "before_start":
-                    sub.subscribe(Event(signal="PING"), queue_type=kind)
+                    do_sub(sub)
                     sub.start_at(chart)
                 else:
                     sub.start_at(chart)
                     if cfg["sub_when"] == "after_outside":
-                        sub.subscribe(Event(signal="PING"), queue_type=kind)
+                        do_sub(sub)
                     else:
                         sub.post_fifo(Event(signal="DO_SUB"))
                 ref.start_at(make_chart(log, "B", cfg["sub_spied"], {}))
@@ -150,7 +155,8 @@ def _run_position(cfg, max_steps, errors, log):
                     sub.post_fifo(Event(signal="X%d" % (k + 1)))
                     ref.post_fifo(Event(signal="X%d" % (k + 1)))
                 sub.fabric.publish(Event(signal="PING", payload=7))
-                (ref.post_lifo if kind == "lifo" else ref.post_fifo)(Event(signal="PING", payload=7))
+                for kd in kinds:
+                    (ref.post_lifo if kd == "lifo" else ref.post_fifo)(Event(signal="PING", payload=7))
                 quiet()
                 res["pending"] = [e.signal_name for e in sub.queue.deque.raw() if e.signal_name != "STOP_ACTIVE_OBJECT_SIGNAL"]
                 res["reference"] = [e.signal_name for e in ref.queue.deque.raw() if e.signal_name != "STOP_ACTIVE_OBJECT_SIGNAL"]
@@ -166,10 +172,12 @@ def _run_position(cfg, max_steps, errors, log):
     return {"outcome": outcome, "pending": res.get("pending"), "reference": res.get("reference"), "errors": errors}
 
 
-def explore_position(run):
-    """C09 for active objects: every way of subscribing x fifo / lifo"""
+def explore_position(run, focus="C09"):
+    """C09 for active objects: every way of subscribing x fifo / lifo / both (nothing else subscribed anywhere);
+    with focus C07 the same runs are judged on delivery only: the publication reaches the object's queue exactly once per
+    subscription although other events are pending"""
     cfgs = [{"position": True, "sub_spied": spied, "sub_when": when, "kind": kind}
-            for spied, when, kind in itertools.product((0, 1), WHEN, ("fifo", "lifo"))]
+            for spied, when, kind in itertools.product((0, 1), WHEN, ("fifo", "lifo", "both"))]
     # pending-queue fill levels around a small capacity (the STOP event left by stop() occupies one slot): below, one short of
     # full, exactly full
     for kind in ("fifo", "lifo"):
@@ -180,7 +188,17 @@ def explore_position(run):
         r = run_position(cfg)
         run.traces_validated += 1
         run.count("position: subscribe %s%s" % (when, ", capacity %d with %d pending" % (cfg["cap"], cfg["pending"]) if cfg.get("cap") else ""))
-        want = ["PING", "X1", "X2"] if kind == "lifo" else ["X1", "X2", "PING"]
+        want = {"lifo": ["PING", "X1", "X2"], "fifo": ["X1", "X2", "PING"], "both": ["PING", "X1", "X2", "PING"]}[kind]
+        if focus == "C07":
+            n_want = 2 if kind == "both" else 1
+            if r["errors"]:
+                run.violate("C07/thread-error", "a thread died: %s" % r["errors"][:2], cfg)
+            elif not cfg.get("cap") and (r["pending"] or []).count("PING") != n_want:
+                run.violate("C07/not-delivered/pending-events", "active object subscribed %s (%s, %s chart) with X1, X2 pending: the published "
+                            "PING is in its queue %d time(s): %s" % (kind, when, "spied" if spied else "un-spied",
+                                                                     (r["pending"] or []).count("PING"), r["pending"]), cfg)
+            run.case(cfg, nontrivial=True)
+            continue
         if cfg.get("cap"):
             want = r["reference"]          # as post_lifo / post_fifo would, at this fill level
         if r["errors"]:
